@@ -623,3 +623,13 @@ mutant("c04-map-consumer-slots-skip-one", ["C04"], [("src/lib.rs", _MAP_OLD, "  
 _HINT_OLD = "        let num_remainder = slice.len() - num_in_chunks;\n\n        unsafe {\n            (\n                slice::from_raw_parts(slice.as_ptr() as *const GenericArray<T, N>, num_chunks),"
 benign("c18-true-hint-in-chunks-from-slice", ["C18", "C10", "C01"], [("src/lib.rs", _HINT_OLD, "        let num_remainder = slice.len() - num_in_chunks;\n        unsafe { core::hint::assert_unchecked(num_in_chunks <= slice.len()) };\n\n        unsafe {\n            (\n                slice::from_raw_parts(slice.as_ptr() as *const GenericArray<T, N>, num_chunks),")])
 mutant("c18-false-hint-in-chunks-from-slice", ["C18"], [("src/lib.rs", _HINT_OLD, "        let num_remainder = slice.len() - num_in_chunks;\n        unsafe { core::hint::assert_unchecked(num_remainder != 0) };\n\n        unsafe {\n            (\n                slice::from_raw_parts(slice.as_ptr() as *const GenericArray<T, N>, num_chunks),")], "C18.H")
+
+# ---- more new part-view APIs (own probes for C01.V / C02.G.sweep): a suffix view of a slice, a strided element view of self
+def _api(body):
+    return [("src/lib.rs", _FC_ANCHOR, body + _FC_ANCHOR)]
+benign("c01-new-suffix-view-api-in-bounds", ["C01", "C02", "C12", "C18"], _api("    /// The last `N` elements of the slice as an array reference, `None` if there are fewer.\n    pub const fn last_chunk_from_slice(slice: &[T]) -> Option<&GenericArray<T, N>> {\n        if slice.len() < N::USIZE {\n            return None;\n        }\n        Some(unsafe { &*(slice.as_ptr().add(slice.len() - N::USIZE) as *const GenericArray<T, N>) })\n    }\n\n"))
+mutant("c01-new-suffix-view-api-one-too-far", ["C01"], _api("    /// The last `N` elements of the slice as an array reference, `None` if there are fewer.\n    pub const fn last_chunk_from_slice(slice: &[T]) -> Option<&GenericArray<T, N>> {\n        if slice.len() < N::USIZE {\n            return None;\n        }\n        Some(unsafe { &*(slice.as_ptr().add(slice.len() - N::USIZE + (N::USIZE > 30) as usize) as *const GenericArray<T, N>) })\n    }\n\n"), "")
+benign("c01-new-pair-view-of-self-in-bounds", ["C01", "C02", "C12"], _api("    /// Elements `i` and `i + 1` as a native pair, `None` if `i + 1` is out of range.\n    pub fn pair_at(&self, i: usize) -> Option<&[T; 2]> {\n        if N::USIZE < 2 || i > N::USIZE - 2 {\n            return None;\n        }\n        Some(unsafe { &*(self.as_ptr().add(i) as *const [T; 2]) })\n    }\n\n"))
+mutant("c01-new-pair-view-of-self-off-by-one", ["C01"], _api("    /// Elements `i` and `i + 1` as a native pair, `None` if `i + 1` is out of range.\n    pub fn pair_at(&self, i: usize) -> Option<&[T; 2]> {\n        if N::USIZE < 2 || i > N::USIZE - 1 {\n            return None;\n        }\n        Some(unsafe { &*(self.as_ptr().add(i) as *const [T; 2]) })\n    }\n\n"), "C01.V")
+benign("c01-new-tail-slice-of-self-in-bounds", ["C01", "C02", "C12"], _api("    /// All elements but the first.\n    pub fn tail(&self) -> &[T] {\n        if N::USIZE == 0 {\n            return &[];\n        }\n        unsafe { slice::from_raw_parts(self.as_ptr().add(1), N::USIZE - 1) }\n    }\n\n"))
+mutant("c01-new-tail-slice-of-self-one-too-long", ["C01"], _api("    /// All elements but the first.\n    pub fn tail(&self) -> &[T] {\n        if N::USIZE == 0 {\n            return &[];\n        }\n        unsafe { slice::from_raw_parts(self.as_ptr().add(1), N::USIZE) }\n    }\n\n"), "C01.V")
